@@ -251,7 +251,7 @@ def run(tier):
         vs = all_vectors(2)
         for va, vb in itertools.product(vs, vs):
             A = np.vstack([va, vb])
-            for vc in vs[::3]:
+            for vc in vs[::5] + vs[1:3]:
                 res, nm = [], []
                 for (na, xa) in reps_stack(A, light=True):
                     for (nb, xb) in reps_single(vc)[:4] + reps_single(vc)[-1:]:
